@@ -65,6 +65,7 @@ THEOREMS = {
         "Shroud.Scope.cli_crash_sites",
         "Shroud.Scope.create_wrapper_matches_parser",
         "Shroud.Scope.config_no_shared_state",
+        "Shroud.Scope.cli_path_eq_create_wrapper",
     ]
 }
 
@@ -288,7 +289,11 @@ def tree_to_yaml_decls(items):
         elif kind == "ns":
             d["decl"] = "namespace " + name
         elif kind == "cls":
-            d["decl"] = "class " + name
+            if len(it) > 5 and it[5].get("template"):
+                d["decl"] = "template<typename T> class " + name
+                d["cxx_template"] = [{"instantiation": "<int>"}, {"instantiation": "<double>"}]
+            else:
+                d["decl"] = "class " + name
         else:
             d["block"] = True
         if it[0] == "fn":
@@ -734,6 +739,11 @@ def map_tree(items, f, path=()):
     return out
 
 
+def _node_at(items, path):
+    it = items[path[0]]
+    return it if len(path) == 1 else _node_at(it[4], path[1:])
+
+
 def containers(items, path=()):
     for idx, it in enumerate(items):
         p = path + (idx,)
@@ -849,7 +859,12 @@ def nested_lib_doc(r, name, python):
         if not any(k[0] == "fn" for k in kids):
             kids.append(fn(inclass))
         me = cnt[0] if kind != "cls" else int(inclass[1:])
-        return (kind, {"ns": "N%d", "cls": "K%d", "block": "B%d"}[kind] % me, {}, {}, kids)
+        node = (kind, {"ns": "N%d", "cls": "K%d", "block": "B%d"}[kind] % me, {}, {}, kids)
+        if kind == "cls" and r.random() < 0.4:
+            # class template with two instantiations: its functions (also those inside blocks) are cloned
+            cnt[0] += 1
+            node = node[:4] + (kids + [("fn", "t%d" % cnt[0], {}, {}, "T {n}(const T &value)")], {"template": True})
+        return node
 
     items = [scope("block", 1, False), scope("ns", 1, False), scope("cls", 1, True), fn(False)]
     r.shuffle(items)
@@ -1131,6 +1146,193 @@ def oracle_attrs(ctx, orc, r, thorough):
     ctx.note("attributes_never_accepted_by_a_generated_host", never)
 
 
+def gen_cli_options(r, defaults_o):
+    """Option values of every kind: booleans, integers, enumerated strings, templates and free strings with capital
+    letters, braces and spaces.  Returns {name: value} (value as YAML would hold it)."""
+    bools = sorted(k for k, v in defaults_o.items() if isinstance(v, bool) and k not in ("debug_testsuite",))
+    ints = {"C_line_length": [60, 100], "F_line_length": [60, 100], "CXX_standard": [2003, 2011]}
+    enums = {"PY_array_arg": ["list", "numpy"], "PY_struct_arg": ["list", "class"], "return_scalar_pointer": ["scalar", "pointer"],
+             "C_API_case": ["upper", "lower", "preserve"]}
+    templates = sorted(k for k, v in defaults_o.items() if isinstance(v, str) and k.endswith("_template") and v
+                       and ("name" in k or "var" in k))
+    out = {}
+    for _ in range(r.randrange(2, 6)):
+        c = r.random()
+        if c < 0.3:
+            k = r.choice(bools); out[k] = r.random() < 0.5
+        elif c < 0.4:
+            k = r.choice(sorted(ints)); out[k] = r.choice(ints[k])
+        elif c < 0.5:
+            k = r.choice(sorted(enums)); out[k] = r.choice(enums[k])
+        else:
+            k = r.choice(templates)
+            d = defaults_o[k]
+            out[k] = r.choice(["Wrap_" + d, d + "_X", "Do{function_name}", "{C_prefix}Do_{underscore_name}{function_suffix}",
+                               d.upper() if "{" not in d else d.replace("{", "Q{", 1), d + " x", "My" + d])
+    return out
+
+
+def _cli_text(v, i):
+    if isinstance(v, bool):
+        return (("true", "True") if v else ("false", "False"))[i % 2]
+    return str(v)
+
+
+def oracle_cli(ctx, orc, scr, r, thorough, defaults_o):
+    """Every kind of option value moved between the YAML file and --option (and language: / --language), in fresh
+    processes through the real argparse: all in YAML = all on the command line = split."""
+    fixed = [
+        ({"wrap_python": True, "debug": True}, "c"),
+        ({"F_name_impl_template": "Wrap_{underscore_name}{function_suffix}", "LUA_name_template": "Do{function_name}", "wrap_lua": True}, "c++"),
+        ({"C_name_template": "{C_prefix}X{C_name_scope}{underscore_name}{function_suffix}", "C_line_length": 60, "F_force_wrapper": True}, None),
+        ({"PY_array_arg": "list", "wrap_python": True, "wrap_fortran": False}, None),
+    ]
+    cases = fixed[: 4 if thorough else 3]
+    for _ in range(16 if thorough else 4):
+        cases.append((gen_cli_options(r, defaults_o), r.choice([None, None, "c", "c++"])))
+    dist = collections.Counter()
+    for i, (opts, lang) in enumerate(cases):
+        for v in opts.values():
+            dist[("bool" if isinstance(v, bool) else "int" if isinstance(v, int) else
+                  "str-capitals" if any(ch.isupper() for ch in v) else "str")] += 1
+            if isinstance(v, str):
+                if "{" in v:
+                    dist["str-braces"] += 1
+                if " " in v:
+                    dist["str-spaces"] += 1
+        decls = ["int {n}(int a, double b)", "void {n}(const char *s)", "double {n}(double *v +intent(in)+rank(1), int nv)",
+                 "void get_name(char *name +intent(out)+charlen(20))"]
+        tree = [("fn", "cFun%d" % j, {}, {}, d) for j, d in enumerate(decls)]
+        if lang != "c":
+            tree.append(("fn", "cStr", {}, {}, "const std::string & {n}(const std::string & name)"))
+            tree.append(("cls", "Thing", {}, {}, [("fn", "getIt", {}, {}, "int {n}()"), ("fn", "k", {}, {}, "Thing() +name(create)")]))
+        a = {"library": "cli", "cxx_header": "cli.h", "options": dict(opts), "tree": tree}
+        if lang:
+            a["language"] = lang
+        names = sorted(opts)
+        half = names[: len(names) // 2]
+        b = dict(a, options={})
+        b.pop("language", None)
+        c = dict(a, options={k: opts[k] for k in half})
+        cmd_all, cmd_half = [], []
+        for k in names:
+            txt = "%s=%s" % (k, _cli_text(opts[k], i))
+            cmd_all += ["--option", txt]
+            if k not in half:
+                cmd_half += ["--option", txt]
+        if lang:
+            cmd_all += ["--language", lang]
+        common_cmd = ["--option", "debug_testsuite=true"]
+        ta, e1 = run_doc_fresh(doc_yaml(a), "cli", scr, "cli%da" % i, common_cmd)
+        tb, e2 = run_doc_fresh(doc_yaml(b), "cli", scr, "cli%db" % i, common_cmd + cmd_all)
+        tc, e3 = run_doc_fresh(doc_yaml(c), "cli", scr, "cli%dc" % i, common_cmd + cmd_half)
+        ctx.count(2)
+        orc.kinds["cli"] += 2
+        if e1:
+            dist["yaml_run_rejected"] += 1
+        for other, eo, cmd, lbl in ((tb, e2, cmd_all, "all"), (tc, e3, cmd_half, "split")):
+            key = "cli:%s:%s" % (lbl, "+".join(names))
+            if e1 or eo:
+                # both must stop, and for the same reason (last line of the message)
+                l1 = (e1 or "").strip().split("\n")[-1][-120:]
+                l2 = (eo or "").strip().split("\n")[-1][-120:]
+                if bool(e1) != bool(eo) or l1 != l2:
+                    ctx.fail(key, "YAML fields vs command line: runs end differently (%s / %s)" % (l1 or "ok", l2 or "ok"),
+                             {"kind": "cli", "first": doc_yaml(a), "second": doc_yaml(b if lbl == "all" else c), "cmdline": cmd})
+                continue
+            diff = first_diff(ta, other, skip_json=False)
+            if diff:
+                ctx.fail(key, "YAML fields %s vs --option/--language differ in %s (%s)" % (opts, diff[0], diff[1]),
+                         {"kind": "cli", "first": doc_yaml(a), "second": doc_yaml(b if lbl == "all" else c),
+                          "cmdline": cmd, "file": diff[0]})
+            else:
+                ctx.nontrivial("cli:%d:%s" % (i, lbl))
+    ctx.note("cli_option_value_distribution", dict(dist))
+
+
+PATH_YAML = """library: Api
+cxx_header: api.hpp
+options:
+  wrap_python: false
+  wrap_lua: false
+splicer:
+  f:
+  - fapi_splicer.f
+  c:
+  - capi_splicer.c
+declarations:
+- decl: int apiVersion()
+- decl: class Session
+  declarations:
+  - decl: Session()
+  - decl: int id()
+"""
+
+
+def _fsplice(tag):
+    return ("! splicer begin module_top\ninteger, parameter :: API_REV_%s = 1\n! splicer end module_top\n" % tag)
+
+
+def _csplice(tag):
+    return ("// splicer begin CXX_definitions\n// revision %s\n// splicer end CXX_definitions\n" % tag)
+
+
+def oracle_paths(ctx, orc, scr, thorough):
+    """--path P ... on the command line vs create_wrapper(path=[P, ...]) from the same kind of working directory:
+    the YAML file names splicer files, the search path has the current ones, the current directory holds stale
+    files of the same names.  Both must produce the same output, and it must contain the text found on the path."""
+    variants = [
+        ("one", ["splicers"], ["--path", "splicers"], {"f": "splicers", "c": "splicers"}),
+        ("none", None, [], {"f": ".", "c": "."}),
+        ("colon", ["more:splicers"], ["--path", "more:splicers"], {"f": "splicers", "c": "more"}),
+        ("two", ["more", "splicers"], ["--path", "more", "--path", "splicers"], {"f": "splicers", "c": "more"}),
+    ]
+    env = dict(os.environ, PYTHONPATH=common.REPO, PYTHONDONTWRITEBYTECODE="1")
+    for name, plist, cmdpath, expect in (variants if thorough else variants[:3]):
+        res = []
+        for mode in ("api", "cli"):
+            d = os.path.join(scr, "path-%s-%s" % (name, mode))
+            for sub in ("out", "splicers", "more"):
+                os.makedirs(os.path.join(d, sub))
+            shroudrun.write_yaml(d, "api.yaml", PATH_YAML)
+            # stale look-alikes in the current directory
+            shroudrun.write_yaml(d, "fapi_splicer.f", _fsplice("CWD"))
+            shroudrun.write_yaml(d, "capi_splicer.c", _csplice("CWD"))
+            shroudrun.write_yaml(os.path.join(d, "splicers"), "fapi_splicer.f", _fsplice("SPLICERS"))
+            shroudrun.write_yaml(os.path.join(d, "splicers"), "capi_splicer.c", _csplice("SPLICERS"))
+            shroudrun.write_yaml(os.path.join(d, "more"), "capi_splicer.c", _csplice("MORE"))
+            if mode == "api":
+                cmd = [sys.executable, "-c", "import shroud; shroud.create_wrapper('api.yaml', outdir='out', path=%r)" % (plist,)]
+            else:
+                cmd = [sys.executable, "-c", "from shroud.main import main; main()", "--outdir", "out"] + cmdpath + ["api.yaml"]
+            p = subprocess.run(cmd, cwd=d, env=env, stdout=subprocess.PIPE, stderr=subprocess.STDOUT, text=True, timeout=300)
+            res.append((p.returncode, p.stdout, shroudrun.read_tree(os.path.join(d, "out"))))
+        ctx.count(1)
+        orc.kinds["path"] += 1
+        (rca, outa, ta), (rcb, outb, tb) = res
+        replay = {"kind": "create_wrapper", "first": PATH_YAML, "second": PATH_YAML, "path": plist, "cmdline": cmdpath,
+                  "cwd_holds_stale": ["fapi_splicer.f", "capi_splicer.c"]}
+        if rca != rcb:
+            ctx.fail("path:%s:rc" % name, "create_wrapper(path=%r) rc=%s, command line %s rc=%s: %s" % (
+                plist, rca, cmdpath, rcb, (outa if rca else outb).strip().split("\n")[-1][:160]), replay)
+            continue
+        if rca != 0:
+            continue
+        diff = first_diff(ta, tb, skip_json=False)
+        if diff:
+            ctx.fail("path:%s:diff" % name, "create_wrapper(path=%r) vs command line %s differ in %s (%s)" % (
+                plist, cmdpath, diff[0], diff[1]), dict(replay, file=diff[0]))
+            continue
+        alltext = b"".join(ta.values())
+        tagf = {".": b"API_REV_CWD", "splicers": b"API_REV_SPLICERS"}[expect["f"]]
+        tagc = {".": b"revision CWD", "splicers": b"revision SPLICERS", "more": b"revision MORE"}[expect["c"]]
+        if tagf not in alltext or tagc not in alltext:
+            ctx.fail("path:%s:wrong-file" % name, "both entry points spliced a file that is not the first match on the search path %r" % (plist,),
+                     replay)
+        else:
+            ctx.nontrivial("path:" + name)
+
+
 def oracle_pairs(ctx, scr, thorough, fs_options, fs_formats, defaults_o, defaults_f):
     r = common.rng("c14-oracle")
     orc = Oracle(ctx, scr)
@@ -1165,6 +1367,7 @@ def oracle_pairs(ctx, scr, thorough, fs_options, fs_formats, defaults_o, default
     ctx.note("oracle_formats", [f for f, _ in fmt_cases])
 
     stats = collections.Counter()
+    wrap_dist = collections.Counter()
     for li in range(nlib):
         if li >= 2 and li % 2 == 0:
             doc = nested_lib_doc(r, "eqv%d" % li, python=(li % 4 == 0))
@@ -1220,6 +1423,28 @@ def oracle_pairs(ctx, scr, thorough, fs_options, fs_formats, defaults_o, default
                     break
             else:
                 ctx.nontrivial("sibling:%s:%d" % (key, li))
+        # ---- wrap_python / wrap_lua / wrap_c / wrap_fortran: each node reads them from its own scope and containers
+        # are wrapped when something inside is.  Expected equivalence: with wrap_L off for the library, switching it on
+        # on a container equals switching it on on every function declared inside it (whole output directories).
+        wraps = ["wrap_python", "wrap_lua", "wrap_c", "wrap_fortran"]
+        for wl in (wraps if thorough else [wraps[(li + j) % 4] for j in range(2)]):
+            off = copy.deepcopy(doc)
+            off["options"] = dict(off["options"]); off["options"][wl] = False
+            off_tree, eoff, _ = run_doc(off, scr, "woff%d%s" % (li, wl))
+            if eoff:
+                ctx.note("wrap_off_rejected_%d_%s" % (li, wl), eoff)
+                continue
+            for p, it in conts:
+                if not thorough and r.random() < 0.35 and not any(k[0] != "fn" for k in it[4]):
+                    continue
+                a = copy.deepcopy(off); b = copy.deepcopy(off)
+                a["tree"] = set_on(off["tree"], p, 2, wl, True)
+                b["tree"] = set_on_members(off["tree"], p, 2, wl, True)
+                depth_ns = sum(1 for q in range(1, len(p) + 1) if _node_at(off["tree"], p[:q])[0] == "ns")
+                wrap_dist["%s.%s.nsdepth%d" % (wl, it[0], depth_ns)] += 1
+                orc.compare_docs("%s-on-%s" % (wl, it[0]), "wrap:%s:%s" % (wl, it[0]),
+                                 "option %s=True on %s (library: off) vs on each contained function" % (wl, it[0]),
+                                 a, b, base_tree=off_tree)
         # ---- empty block inserted around a run of declarations (JSON compared too: no node records a block)
         for _ in range(4 if thorough else 2):
             conts2 = [((), None)] + [(p, it) for p, it in conts]
@@ -1233,7 +1458,7 @@ def oracle_pairs(ctx, scr, thorough, fs_options, fs_formats, defaults_o, default
                 out = []
                 for idx, it in enumerate(items):
                     if it[0] != "fn":
-                        it = it[:4] + (wrap(it[4], path + (idx,)),)
+                        it = it[:4] + (wrap(it[4], path + (idx,)),) + tuple(it[5:])
                     out.append(it)
                 return out
             b = copy.deepcopy(doc)
@@ -1241,6 +1466,7 @@ def oracle_pairs(ctx, scr, thorough, fs_options, fs_formats, defaults_o, default
             orc.compare_docs("empty-block", "empty-block", "empty block inserted", doc, b, skip_json=False)
 
     ctx.note("oracle_tree_distribution", dict(stats))
+    ctx.note("wrap_placement_distribution", dict(wrap_dist))
 
     # ---------- inline attributes vs attrs / fattrs
     for i in range(24 if thorough else 12):
@@ -1260,54 +1486,8 @@ def oracle_pairs(ctx, scr, thorough, fs_options, fs_formats, defaults_o, default
     oracle_attrs(ctx, orc, r, thorough)
 
     # ---------- YAML fields vs --option / --language (fresh processes, real command line)
-    cli_cases = [
-        ({"wrap_python": True, "debug": True}, "c"),
-        ({"F_force_wrapper": True, "wrap_lua": False}, "c++"),
-        ({"PY_array_arg": "list", "wrap_python": True, "wrap_fortran": False}, None),
-        ({"C_force_wrapper": True, "F_string_len_trim": False}, None),
-    ]
-    for i, (opts, lang) in enumerate(cli_cases if thorough else cli_cases[:2]):
-        decls = ["int {n}(int a, double b)", "void {n}(const char *s)", "double {n}(double *v +intent(in)+rank(1), int nv)"]
-        if lang != "c":
-            decls.append("const std::string & {n}(const std::string & name)")
-        tree = [("fn", "c%d" % j, {}, {}, d) for j, d in enumerate(decls)]
-        a = {"library": "cli", "cxx_header": "cli.h", "options": dict(opts), "tree": tree}
-        if lang:
-            a["language"] = lang
-        # (i) everything in the YAML file  (ii) everything on the command line  (iii) split
-        names = sorted(opts)
-        half = names[: len(names) // 2]
-        b = dict(a, options={})
-        b.pop("language", None)
-        c = dict(a, options={k: opts[k] for k in half})
-        cmd_all, cmd_half = [], []
-        for k in names:
-            txt = "%s=%s" % (k, opts[k] if not isinstance(opts[k], bool) else ("true" if i % 2 else "True") if opts[k] else
-                             ("false" if i % 2 else "False"))
-            cmd_all += ["--option", txt]
-            if k not in half:
-                cmd_half += ["--option", txt]
-        if lang:
-            cmd_all += ["--language", lang]
-        common_cmd = ["--option", "debug_testsuite=true"]
-        ta, e1 = run_doc_fresh(doc_yaml(a), "cli", scr, "cli%da" % i, common_cmd)
-        tb, e2 = run_doc_fresh(doc_yaml(b), "cli", scr, "cli%db" % i, common_cmd + cmd_all)
-        tc, e3 = run_doc_fresh(doc_yaml(c), "cli", scr, "cli%dc" % i, common_cmd + cmd_half)
-        ctx.count(2)
-        orc.kinds["cli"] += 2
-        for other, eo, cmd, lbl in ((tb, e2, cmd_all, "all"), (tc, e3, cmd_half, "split")):
-            if e1 or eo:
-                if bool(e1) != bool(eo):
-                    ctx.fail("cli:%d:%s" % (i, lbl), "YAML fields vs command line: one run failed (%s / %s)" % (e1, eo),
-                             {"kind": "cli", "first": doc_yaml(a), "second": doc_yaml(b if lbl == "all" else c), "cmdline": cmd})
-                continue
-            diff = first_diff(ta, other, skip_json=False)
-            if diff:
-                ctx.fail("cli:%d:%s" % (i, lbl), "YAML fields vs --option/--language differ in %s (%s)" % diff,
-                         {"kind": "cli", "first": doc_yaml(a), "second": doc_yaml(b if lbl == "all" else c),
-                          "cmdline": cmd, "file": diff[0]})
-            else:
-                ctx.nontrivial("cli:%d:%s" % (i, lbl))
+    oracle_cli(ctx, orc, scr, r, thorough, defaults_o)
+    oracle_paths(ctx, orc, scr, thorough)
 
     # ---------- create_wrapper vs the command line
     for i, withpath in enumerate([False, True] if thorough else [False]):
